@@ -15,6 +15,11 @@ let option_map f = function
 | Some a -> Some (f a)
 | None -> None
 
+(** val fst : ('a1 * 'a2) -> 'a1 **)
+
+let fst = function
+| (x, _) -> x
+
 (** val snd : ('a1 * 'a2) -> 'a2 **)
 
 let snd = function
@@ -32,6 +37,11 @@ let rec app l m =
   match l with
   | [] -> m
   | a :: l1 -> a :: (app l1 m)
+
+type comparison =
+| Eq
+| Lt
+| Gt
 
 (** val add : nat -> nat -> nat **)
 
@@ -89,6 +99,12 @@ let rec rev = function
 | [] -> []
 | x :: l' -> app (rev l') (x :: [])
 
+(** val concat : 'a1 list list -> 'a1 list **)
+
+let rec concat = function
+| [] -> []
+| x :: l0 -> app x (concat l0)
+
 (** val map : ('a1 -> 'a2) -> 'a1 list -> 'a2 list **)
 
 let rec map f = function
@@ -124,6 +140,16 @@ let rec forallb f = function
 let rec filter f = function
 | [] -> []
 | x :: l0 -> if f x then x :: (filter f l0) else filter f l0
+
+(** val combine : 'a1 list -> 'a2 list -> ('a1 * 'a2) list **)
+
+let rec combine l l' =
+  match l with
+  | [] -> []
+  | x :: tl ->
+    (match l' with
+     | [] -> []
+     | y :: tl' -> (x, y) :: (combine tl tl'))
 
 (** val firstn : nat -> 'a1 list -> 'a1 list **)
 
@@ -165,6 +191,103 @@ type z =
 
 module Pos =
  struct
+  type mask =
+  | IsNul
+  | IsPos of positive
+  | IsNeg
+ end
+
+module Coq_Pos =
+ struct
+  (** val pred_double : positive -> positive **)
+
+  let rec pred_double = function
+  | XI p -> XI (XO p)
+  | XO p -> XI (pred_double p)
+  | XH -> XH
+
+  type mask = Pos.mask =
+  | IsNul
+  | IsPos of positive
+  | IsNeg
+
+  (** val succ_double_mask : mask -> mask **)
+
+  let succ_double_mask = function
+  | IsNul -> IsPos XH
+  | IsPos p -> IsPos (XI p)
+  | IsNeg -> IsNeg
+
+  (** val double_mask : mask -> mask **)
+
+  let double_mask = function
+  | IsPos p -> IsPos (XO p)
+  | x0 -> x0
+
+  (** val double_pred_mask : positive -> mask **)
+
+  let double_pred_mask = function
+  | XI p -> IsPos (XO (XO p))
+  | XO p -> IsPos (XO (pred_double p))
+  | XH -> IsNul
+
+  (** val sub_mask : positive -> positive -> mask **)
+
+  let rec sub_mask x y =
+    match x with
+    | XI p ->
+      (match y with
+       | XI q -> double_mask (sub_mask p q)
+       | XO q -> succ_double_mask (sub_mask p q)
+       | XH -> IsPos (XO p))
+    | XO p ->
+      (match y with
+       | XI q -> succ_double_mask (sub_mask_carry p q)
+       | XO q -> double_mask (sub_mask p q)
+       | XH -> IsPos (pred_double p))
+    | XH -> (match y with
+             | XH -> IsNul
+             | _ -> IsNeg)
+
+  (** val sub_mask_carry : positive -> positive -> mask **)
+
+  and sub_mask_carry x y =
+    match x with
+    | XI p ->
+      (match y with
+       | XI q -> succ_double_mask (sub_mask_carry p q)
+       | XO q -> double_mask (sub_mask p q)
+       | XH -> IsPos (pred_double p))
+    | XO p ->
+      (match y with
+       | XI q -> double_mask (sub_mask_carry p q)
+       | XO q -> succ_double_mask (sub_mask_carry p q)
+       | XH -> double_pred_mask p)
+    | XH -> IsNeg
+
+  (** val compare_cont : comparison -> positive -> positive -> comparison **)
+
+  let rec compare_cont r x y =
+    match x with
+    | XI p ->
+      (match y with
+       | XI q -> compare_cont r p q
+       | XO q -> compare_cont Gt p q
+       | XH -> Gt)
+    | XO p ->
+      (match y with
+       | XI q -> compare_cont Lt p q
+       | XO q -> compare_cont r p q
+       | XH -> Gt)
+    | XH -> (match y with
+             | XH -> r
+             | _ -> Lt)
+
+  (** val compare : positive -> positive -> comparison **)
+
+  let compare =
+    compare_cont Eq
+
   (** val eqb : positive -> positive -> bool **)
 
   let rec eqb p q =
@@ -182,6 +305,30 @@ module Pos =
 
 module N =
  struct
+  (** val sub : n -> n -> n **)
+
+  let sub n0 m =
+    match n0 with
+    | N0 -> N0
+    | Npos n' ->
+      (match m with
+       | N0 -> n0
+       | Npos m' ->
+         (match Coq_Pos.sub_mask n' m' with
+          | Coq_Pos.IsPos p -> Npos p
+          | _ -> N0))
+
+  (** val compare : n -> n -> comparison **)
+
+  let compare n0 m =
+    match n0 with
+    | N0 -> (match m with
+             | N0 -> Eq
+             | Npos _ -> Lt)
+    | Npos n' -> (match m with
+                  | N0 -> Gt
+                  | Npos m' -> Coq_Pos.compare n' m')
+
   (** val eqb : n -> n -> bool **)
 
   let eqb n0 m =
@@ -191,7 +338,14 @@ module N =
              | Npos _ -> false)
     | Npos p -> (match m with
                  | N0 -> false
-                 | Npos q -> Pos.eqb p q)
+                 | Npos q -> Coq_Pos.eqb p q)
+
+  (** val ltb : n -> n -> bool **)
+
+  let ltb x y =
+    match compare x y with
+    | Lt -> true
+    | _ -> false
  end
 
 module Z =
@@ -204,10 +358,10 @@ module Z =
              | Z0 -> true
              | _ -> false)
     | Zpos p -> (match y with
-                 | Zpos q -> Pos.eqb p q
+                 | Zpos q -> Coq_Pos.eqb p q
                  | _ -> false)
     | Zneg p -> (match y with
-                 | Zneg q -> Pos.eqb p q
+                 | Zneg q -> Coq_Pos.eqb p q
                  | _ -> false)
  end
 
@@ -641,3 +795,254 @@ let tc_default_cram =
   { output_stream = (Some (Npos (XO XH))); keep_crlf = (Some true); timeout =
     None; detached = None; skip_code = (Some (Zpos (XO (XO (XO (XO (XI (XO
     XH)))))))); strip_ansi = None; wait = None; environment = [] }
+
+type exit =
+| Code of z
+| TimedOut
+| ESkipped
+| EDetached
+| Unknown
+| RunnerErr
+
+type rstep = { status : exit; out_ok : bool }
+
+type tcase = { expected : z option; t_skip : z; per_timeout : n option;
+               empty_ok : bool }
+
+type exec_result =
+| ExOk of rstep list
+| ExSkipped of nat
+| ExTimeout of bool * rstep list
+| ExFailed of nat
+
+(** val cons_res : rstep -> exec_result -> exec_result **)
+
+let cons_res r = function
+| ExOk outs -> ExOk (r :: outs)
+| ExTimeout (g, outs) -> ExTimeout (g, (r :: outs))
+| x -> x
+
+(** val exec : tcase list -> rstep list -> bool list -> nat -> exec_result **)
+
+let rec exec tcs rs gs i =
+  match tcs with
+  | [] -> ExOk []
+  | tc :: tcs' ->
+    (match rs with
+     | [] -> ExOk []
+     | r :: rs' ->
+       (match gs with
+        | [] -> ExOk []
+        | g :: gs' ->
+          (match r.status with
+           | Code c ->
+             if Z.eqb c tc.t_skip
+             then ExSkipped i
+             else cons_res r (exec tcs' rs' gs' (S i))
+           | TimedOut -> ExTimeout (g, (r :: []))
+           | ESkipped -> ExSkipped i
+           | EDetached ->
+             cons_res { status = EDetached; out_ok = tc.empty_ok }
+               (exec tcs' rs' gs' (S i))
+           | Unknown ->
+             ExOk
+               (r :: (map (fun tc' -> { status = Unknown; out_ok =
+                       tc'.empty_ok }) tcs'))
+           | RunnerErr -> ExFailed i)))
+
+type res =
+| Success
+| Failed
+| FailedTimeout
+| RSkipped
+
+(** val verdict : tcase -> rstep -> res **)
+
+let verdict tc r =
+  match r.status with
+  | Code c ->
+    if Z.eqb c (match tc.expected with
+                | Some e -> e
+                | None -> Z0)
+    then if r.out_ok then Success else Failed
+    else Failed
+  | _ -> Failed
+
+(** val zip_with : ('a1 -> 'a2 -> 'a3) -> 'a1 list -> 'a2 list -> 'a3 list **)
+
+let rec zip_with f a b =
+  match a with
+  | [] -> []
+  | x :: a' ->
+    (match b with
+     | [] -> []
+     | y :: b' -> (f x y) :: (zip_with f a' b'))
+
+(** val doc_results :
+    (tcase -> rstep -> res) -> tcase list -> exec_result -> res option list **)
+
+let doc_results validate tcs = function
+| ExOk outs ->
+  zip_with (fun tc r ->
+    match r.status with
+    | EDetached -> None
+    | _ -> Some (validate tc r)) tcs outs
+| ExSkipped _ -> map (fun _ -> Some RSkipped) tcs
+| ExTimeout (_, outs) ->
+  app
+    (zip_with (fun tc r -> Some
+      (match r.status with
+       | TimedOut -> FailedTimeout
+       | _ -> validate tc r)) tcs outs)
+    (map (fun _ -> Some RSkipped) (skipn (length outs) tcs))
+| ExFailed _ -> []
+
+(** val is_failure : res option -> bool **)
+
+let is_failure = function
+| Some r -> (match r with
+             | Success -> false
+             | RSkipped -> false
+             | _ -> true)
+| None -> false
+
+(** val exit_status : res option list list -> z **)
+
+let exit_status docs =
+  if existsb (existsb is_failure) docs
+  then Zpos (XO (XI (XO (XO (XI XH)))))
+  else Z0
+
+(** val effective_limit : n option -> n option -> (n * bool) option **)
+
+let effective_limit per left =
+  match per with
+  | Some p ->
+    (match left with
+     | Some l -> if N.ltb l p then Some (l, true) else Some (p, false)
+     | None -> Some (p, false))
+  | None -> (match left with
+             | Some l -> Some (l, true)
+             | None -> None)
+
+(** val time_left : n option -> n -> n option **)
+
+let time_left total elapsed =
+  option_map (fun t -> N.sub t elapsed) total
+
+(** val gs_of : tcase list -> n option -> n list -> bool list **)
+
+let gs_of tcs total elapsed =
+  map (fun p ->
+    match effective_limit (fst p).per_timeout (time_left total (snd p)) with
+    | Some p0 -> let (_, g) = p0 in g
+    | None -> false) (combine tcs elapsed)
+
+(** val limits_of : tcase list -> n option -> n list -> n option list **)
+
+let limits_of tcs total elapsed =
+  map (fun p ->
+    option_map fst
+      (effective_limit (fst p).per_timeout (time_left total (snd p))))
+    (combine tcs elapsed)
+
+(** val exec_timed :
+    tcase list -> rstep list -> n option -> n list -> exec_result **)
+
+let exec_timed tcs rs total elapsed =
+  exec tcs rs (gs_of tcs total elapsed) O
+
+(** val count : (res option -> bool) -> res option list list -> nat **)
+
+let count p docs =
+  length (filter p (concat docs))
+
+(** val is_success : res option -> bool **)
+
+let is_success = function
+| Some r -> (match r with
+             | Success -> true
+             | _ -> false)
+| None -> false
+
+(** val is_skipped : res option -> bool **)
+
+let is_skipped = function
+| Some r -> (match r with
+             | RSkipped -> true
+             | _ -> false)
+| None -> false
+
+(** val is_reported : res option -> bool **)
+
+let is_reported = function
+| Some _ -> true
+| None -> false
+
+(** val script_first_stop : rstep list -> rstep option **)
+
+let rec script_first_stop = function
+| [] -> None
+| r :: t ->
+  (match r.status with
+   | Code _ -> script_first_stop t
+   | ESkipped -> script_first_stop t
+   | EDetached -> script_first_stop t
+   | _ -> Some r)
+
+(** val find_skip : z -> rstep list -> nat -> nat option **)
+
+let rec find_skip skip rs i =
+  match rs with
+  | [] -> None
+  | r :: t ->
+    (match r.status with
+     | Code c -> if Z.eqb c skip then Some i else find_skip skip t (S i)
+     | _ -> find_skip skip t (S i))
+
+(** val exec_script : z -> rstep list -> exec_result **)
+
+let exec_script skip rs =
+  match script_first_stop rs with
+  | Some r ->
+    (match r.status with
+     | TimedOut -> ExTimeout (true, (r :: []))
+     | _ -> ExFailed O)
+  | None ->
+    (match find_skip skip rs O with
+     | Some i -> ExSkipped i
+     | None -> ExOk rs)
+
+(** val run_docs :
+    (tcase list * exec_result) list -> res option list list * bool **)
+
+let rec run_docs = function
+| [] -> ([], false)
+| p :: r ->
+  let (tcs, e) = p in
+  (match e with
+   | ExFailed _ -> ([], true)
+   | _ -> let (l, b) = run_docs r in (((doc_results verdict tcs e) :: l), b))
+
+(** val run_exit : (tcase list * exec_result) list -> z **)
+
+let run_exit docs =
+  let (l, err) = run_docs docs in if err then Zpos XH else exit_status l
+
+(** val run_outcomes :
+    (tcase list * exec_result) list -> res option list list **)
+
+let run_outcomes docs =
+  let (l, err) = run_docs docs in if err then [] else l
+
+(** val stream_ok : n option -> bool -> bool -> bool **)
+
+let stream_ok os stdout_ok stderr_ok =
+  match os with
+  | Some n0 ->
+    (match n0 with
+     | N0 -> stdout_ok
+     | Npos p -> (match p with
+                  | XH -> stderr_ok
+                  | _ -> stdout_ok))
+  | None -> stdout_ok
